@@ -923,6 +923,57 @@ def st_iter_find(ex, callee, args, st):
     return res
 
 
+class FilterMapIter(symex.Val):
+    def __init__(self, inner, env, ctext):
+        self.inner, self.env, self.ctext = inner, env, ctext
+
+    def __repr__(self):
+        return f"filter_map<{self.inner!r}>"
+
+
+def st_iter_filter_map(ex, callee, args, st):
+    it = ex.deref(args[0], st)
+    cm = re.search(r"(\{closure@[^}]+\})", callee)
+    if not isinstance(it, SeqIter) or not cm:
+        return _fallback(ex, callee, args, st, f"filter_map over {it!r}")
+    return _ret(FilterMapIter(it, args[1], cm.group(1)), st)
+
+
+def st_collect_filter_map(ex, callee, args, st):
+    """`iter.filter_map(f).collect::<Vec<_>>()`: the payloads of the Some results, in order"""
+    fm = ex.deref(args[0], st)
+    if not isinstance(fm, FilterMapIter) or fm.inner.rev:
+        return _fallback(ex, callee, args, st, f"collect of {fm!r}")
+    f = _closure_fn(ex, fm.ctext)
+    res, work = [], [(fm.inner.lo, [], st)]
+    while work:
+        k, acc, s1 = work.pop()
+        if k >= fm.inner.hi:
+            res.append(("return", Adt("Vec", "lit", acc), None, s1))
+            continue
+        for o in ex.run(f, [fm.env, iter_elem(ex, fm.inner, k)], {}, 1, s1):
+            if o.kind != "return":
+                res.append((o.kind, o.value, o.info, o.state))
+                continue
+            for is_some, payload, s2 in _opt_split(ex, o.value, o.state):
+                work.append((k + 1, acc + [payload] if is_some else acc, s2))
+    return res
+
+
+def st_vec_pop(ex, callee, args, st):
+    cur = ex.deref(args[0], st)
+    if not (isinstance(cur, Adt) and cur.ty == "Vec" and cur.variant == "lit" and isinstance(args[0], Ref)):
+        return _fallback(ex, callee, args, st, f"pop from {cur!r}")
+    if not cur.fields:
+        return _ret(Adt("Option", "None", []), st)
+    st2 = st.fork()
+    r = args[0]
+    while isinstance(ex._load(r.frame, r.place, st2), Ref):
+        r = ex._load(r.frame, r.place, st2)
+    ex._store(r.frame, r.place, Adt("Vec", "lit", list(cur.fields[:-1])), st2)
+    return _ret(Adt("Option", "Some", [cur.fields[-1]]), st2)
+
+
 def st_slice_last(ex, callee, args, st):
     seq = ex.deref(args[0], st)
     if not isinstance(seq, Sym) or not getattr(ex, "model_sequences", False):
@@ -1005,6 +1056,9 @@ STATE_INTRINSICS = {
     r"^<(std::iter::)?Enumerate<(std::slice::)?Iter<.*>> as (std::iter::)?Iterator>::next$": st_iter_next,
     r"^(std::vec::)?Vec::<.*>::new$": st_vec_new,
     r"^(std::vec::)?Vec::<.*>::push$": st_vec_push,
+    r"^(std::vec::)?Vec::<.*>::pop$": st_vec_pop,
+    r"^<(std::slice::)?Iter<.*> as (std::iter::)?Iterator>::filter_map::<.*>$": st_iter_filter_map,
+    r"^<FilterMap<.*> as (std::iter::)?Iterator>::collect::<(std::vec::)?Vec<.*>>$": st_collect_filter_map,
     r"^<(std::vec::)?Vec<.*> as (std::ops::)?Index<usize>>::index$": st_vec_index,
     r"^core::slice::<impl \[.*\]>::get::<usize>$": st_slice_get,
     r"HashSet::<(std::string::)?String>::new$": st_set_new,
